@@ -1545,10 +1545,12 @@ class AddConstraint(Contract):
     eprops = ()
 
     def configs(self, tier):
-        return [dict(mode=m, check=k) for m in MODES for k in (True, False)]
+        return [dict(mode=m, check=k) for m in MODES for k in (True, False, "default")]
 
     def setup(self, c, cfg):
         apply_mode(c, cfg["mode"])
+        if cfg["check"] == "default":        # the check is ON unless a caller switches it off
+            return c.rt.add_constraint, (c.operand("v"), c.operand("w"), c.operand("y")), {}
         return c.rt.add_constraint, (c.operand("v"), c.operand("w"), c.operand("y"), cfg["check"]), {}
 
     def use_stub(self, c, *a, **k):
